@@ -22,8 +22,8 @@ CLAIMS.update({
    note="Trusted: GetTokens/GetArgs pure; the fold countRefAndGenericArgs (assumed contract: counts top-level generic parameters - known limitation F-09).",
    ref="6/C09"),
  "C06": dict(
-   text="Partial (code-generator side, list indexing). The functions that emit the list index check (rvalue: VisitBinaryExpr/BIN_INDEX; assignment target, Referenz argument and nested indexing: evaluateAssignableOrReference) are executed symbolically as real code under trusted contracts on the llir builder API that give each emitted instruction its LLVM meaning (IR-denotation layer). Proved for all 2^64 index values and all lengths >= 0: ddp_runtime_error is reached exactly when !(1 <= i <= len) with len the list's length field, the element address is computed only under 0 <= i-1 < len, and code after the check runs only on the in-range path. Text indexing in the C runtime, slicing, Variable casts and '...' are not yet under contract.",
-   note="Trusted: ~20 llir builder contracts (LLVM LangRef semantics), loadStructField/addTemporary frames, IR type descriptor accessors, 'den(zero)=0', immutability of the AST and of package-level IR handles during code generation.",
+   text="Partial. (a) Code-generator side, list indexing: the functions that emit the list index check (rvalue: VisitBinaryExpr/BIN_INDEX; assignment target, Referenz argument and nested indexing: evaluateAssignableOrReference) are executed symbolically as real code under trusted contracts on the llir builder API that give each emitted instruction its LLVM meaning (IR-denotation layer). Proved for all 2^64 index values and all lengths >= 0: ddp_runtime_error is reached exactly when !(1 <= i <= len) with len the list's length field, the element address is computed only under 0 <= i-1 < len, and code after the check runs only on the in-range path. (b) C runtime, Text indexing and character replacement (ddp_string_index, ddp_replace_char_in_string): the C functions are extracted mechanically from the tree's sources on every run (clang -O0 IR -> Go, one statement per instruction) and verified against contracts over a ghost byte-memory model: for every well-formed UTF-8 Text and every 64-bit index the run-time error function is called exactly when the index is outside 1..number of code points (or the stored value is not a character), a normal return means the index was inside, every byte access lies inside a live block, and the result is the code point whose lead byte is preceded by exactly index-1 lead bytes. Slicing, list slices, Variable casts and '...' are not under contract.",
+   note="Trusted: ~20 llir builder contracts (LLVM LangRef semantics), loadStructField/addTemporary frames, IR type descriptor accessors, immutability of the AST during code generation; for the C part: clang's -O0 IR as the meaning of the C source, the extraction (tools/c2go.py, DESIGN 3b), contracts of libc (strlen, memcpy, memmove, memcmp, realloc, free) and of glibc's c32rtomb/mbrtoc32, out-of-memory not modelled, well-formed UTF-8 (validT) as a precondition.",
    ref="6/C06"),
  "C07": dict(
    text="Partial. Deductive proof of the local links of the failure-flag chain in the parser: the handler wrapper installed by newParser raises errored exactly for error-level diagnostics and forwards every diagnostic once; errored is written nowhere else in the package (syntactic frame obligation over the SSA); parse() ends with Ast.Faulty == errored (so nothing that can still report runs after the flag is copied); errVal delivers the first error and suppresses follow-ups in panic mode; warn never counts as failure. Range validity, the renderer and the CLI exit status are not yet under contract.",
@@ -65,6 +65,10 @@ CLAIMS.update({
    text="Partial (declaration side of the convention). Proved on the real code generator: (1) which descriptors are 'primitive' - the seven IsPrimitive implementations, linked to the interface method by dynamic dispatch; (2) toIrType maps every DDP type class (after aliases and type definitions) to its descriptor - Zahl, Kommazahl, Byte, Wahrheitswert, Buchstabe by-value descriptors, Text, Variable, the seven list descriptors and Kombinationen non-primitive ones; (3) toIrParamType yields the value type exactly for a non-Referenz parameter of the five primitive classes and a pointer to the representation for Text, lists, Kombinationen, Variable and every Referenz (the relation rep, written from the statement); (4) both places that build an IR signature (VisitFuncDecl for declared/extern functions, declareImportedFuncDecl for imported ones) hand llir exactly: a leading out-pointer of the result's representation and IR result void for a non-primitive result, the value type as IR result otherwise, then one IR parameter per declared parameter in order, each rep(parameter) (loop invariants over the parameter list; opaque pointers for generic extern parameters). Not decided: argument construction and caller-side release at call sites, the C header layouts, unmangled names of extern symbols, linking.",
    note="Trusted: ir.NewParam/Module.NewFunc (llir), IrType/PtrType accessors as uninterpreted functions of the descriptor (PtrType = pointer to IrType is a set-up fact), CastDeeplyNestedGenerics as the definition of 'generic', mangledNameDecl frame, immutability of the descriptor fields of the compiler, AST link GenericInstantiation.GenericDecl != nil.",
    ref="6/C18"),
+ "C12": dict(
+   text="The C runtime's Text functions are extracted mechanically from the tree's C sources on every run (clang -O0 LLVM IR -> Go, one statement per IR instruction; DESIGN 3b) and verified function by function against contracts over a ghost byte-memory model (blocks with contents and size; every byte access is an obligation 'inside a live block'). Proved for all inputs: the UTF-8 byte classes and widths of utf8.c (continuation/lead classification by bit masks, utf8_indicated_num_bytes, utf8_num_bytes = width of the first well-formed character or 0, utf8_num_bytes_char = encoding length or -1 for non-scalar values incl. surrogates); utf8_strlen and ddp_string_length return the number of code points (count of lead bytes - a counting quantifier with loop invariant); utf8_char_to_string/utf8_string_to_char against the encoding/decoding arithmetic (glibc's conversion functions trusted); indexing returns the index-th code point and errors exactly outside 1..length; character replacement keeps the bytes before and after and yields a well-formed Text of the right length for shorter, equal and longer encodings; the three concatenations produce exactly the bytes of the operands in order, consume their Text operand and keep the other; Buchstabe->Text conversion; copies are byte-identical and fresh; equality holds exactly for equal byte sequences (and is memory-safe for the non-canonical empty Texts the runtime produces). Texts are well-formed (cap bytes, one terminating NUL) after every operation. Not decided: slicing (ddp_string_slice), number<->Text conversions, iteration code emitted by the compiler, that operations preserve UTF-8 validity (validT is a precondition of indexing/replacement, not yet a postcondition), normalisation questions.",
+   note="Trusted: clang -O0 IR as the meaning of C, the extraction tool, libc contracts (strlen, memcpy, memmove, memcmp, realloc, free), glibc c32rtomb/mbrtoc32 (observed behaviour: encodes up to 0x7fffffff), out-of-memory not modelled, signed 64-bit integers with every overflow an obligation (stricter than C for size_t).",
+   ref="6/C12"),
 })
 NA = {
  "C08": "relational whole-program property (no holder observes another holder's mutation); no function contract within reach states it; the local copy/claim mechanics are covered under C05/C18 where claimed",
